@@ -104,6 +104,7 @@ struct Gen<'a> {
     base: std::time::Instant,
     out: &'a mut dyn Write,
     dead: bool,
+    focus: Option<u64>,
     mute: bool,
     nactions: usize,
     stats: &'a mut BTreeMap<String, u64>,
@@ -358,6 +359,21 @@ impl<'a> Gen<'a> {
         self.spans.iter().filter(|(_, i)| !i.out).map(|(h, _)| *h).collect()
     }
 
+    /// spans are picked with a bias towards one focus span per history, so that the same span
+    /// is attached to, parented under and made local parent repeatedly
+    fn pick_span(&mut self, from: &[u64]) -> u64 {
+        if let Some(f) = self.focus {
+            if from.contains(&f) && self.rng.chance(1, 2) {
+                return f;
+            }
+        }
+        let h = *self.rng.pick(from);
+        if self.focus.map(|f| !self.spans.contains_key(&f)).unwrap_or(true) || self.rng.chance(1, 12) {
+            self.focus = Some(h);
+        }
+        h
+    }
+
     fn mark_busy(&mut self, t: usize, hs: &[u64]) {
         for h in hs {
             if let Some(si) = self.spans.get_mut(h) {
@@ -403,7 +419,7 @@ impl<'a> Gen<'a> {
             let h = self.next_handle + 1;
             let name = self.next_sym + 1;
             let tr = self.next_trace + 1;
-            let sampled = if self.rng.chance(1, 5) { 0 } else { 1 };
+            let sampled = if self.rng.chance(1, 3) { 0 } else { 1 };
             let remote: u64 = match self.rng.below(4) { 0 => 0, 1 => self.rng.next(), 2 => 1u64 << 63, _ => self.rng.below(1000) as u64 };
             let trace: u128 = match self.rng.below(5) { 0 => (1u128 << 127) | tr as u128, 1 => (tr as u128) << 64, _ => 0x1000 + tr as u128 };
             cands.push((6, c(vec![s("root"), s(h), s(name), format!("{:x}", trace), format!("{:x}", remote), s(sampled)])));
@@ -411,12 +427,12 @@ impl<'a> Gen<'a> {
                 cands.push((1, c(vec![s("noop"), s(h)])));
             }
             if !all.is_empty() {
-                let p = *self.rng.pick(&all);
+                let p = self.pick_span(&all);
                 cands.push((6, c(vec![s("child"), s(h), s(name), s(p)])));
                 let k = self.rng.below(4);
                 let mut toks = vec![s("childn"), s(h), s(name), s(k)];
                 for _ in 0..k {
-                    toks.push(s(*self.rng.pick(&all)));
+                    toks.push(s(self.pick_span(&all)));
                 }
                 cands.push((3, c(toks)));
             } else {
@@ -426,7 +442,7 @@ impl<'a> Gen<'a> {
         }
         if th.scoped.len() < 7 {
             if !all.is_empty() {
-                let p = *self.rng.pick(&all);
+                let p = self.pick_span(&all);
                 cands.push((6, c(vec![s("setl"), s(self.next_handle + 1), s(p)])));
             }
             cands.push((8, c(vec![s("lenter"), s(self.next_handle + 1), s(self.next_sym + 1)])));
@@ -468,13 +484,13 @@ impl<'a> Gen<'a> {
         if !self.lsets.is_empty() {
             let ls = *self.rng.pick(&self.lsets);
             if !all.is_empty() {
-                let p = *self.rng.pick(&all);
+                let p = self.pick_span(&all);
                 cands.push((3, c(vec![s("pushc"), s(p), s(ls)])));
             }
             cands.push((1, c(vec![s("torec"), s(ls), format!("{:x}", 0x77u128 + self.rng.below(5) as u128), format!("{:x}", (self.rng.below(3) as u64).wrapping_mul(0x8000_0000_0000_0001))])));
         }
         if !all.is_empty() {
-            let p = *self.rng.pick(&all);
+            let p = self.pick_span(&all);
             if th.nest.len() < 2 {
                 let ps = self.props();
                 let mut toks = vec![s("saddp"), s(p)];
@@ -862,6 +878,7 @@ pub fn generate(seed: u64, first: usize, n: usize, prof_name: &str, out: &mut dy
             base: std::time::Instant::now(),
             out,
             dead: false,
+            focus: None,
             mute: false,
             nactions: 0,
             stats: &mut stats,
@@ -946,6 +963,7 @@ pub fn replay(path: &str, out: &mut dyn Write) {
                 base: std::time::Instant::now(),
                 out,
                 dead: false,
+                focus: None,
                 mute: false,
                 nactions: 0,
                 stats: &mut stats,
